@@ -1,4 +1,6 @@
 ENGINES = [
+    {"name": "generated", "path": "harness/astx.go -> coq/Generated/*.v + coq/theories (Derived, Async, AsyncProofs, RunMisc) + harness/derived.go", "serves_properties": ["C15", "C19", "C12"],
+     "kind_free_text": "translator (go/ast) regenerating model fragments from the source on every run: async skeletons, return-expression classes, parseVal's case table; theorems and obligations over the generated fragments; dynamic runs incl. the race detector"},
     {"name": "json", "path": "coq/theories (Utf8, GoInt, GoUnquote, Json, JsonDoc + *Proofs, RoundTrip, RunJson) + harness/json.go", "serves_properties": ["C01", "C02", "C03", "C04", "C16", "C20"],
      "kind_free_text": "Coq theorems over transcriptions of the serializer and of the two parser state machines, an RFC 8259 grammar with layout and a reference decoder; correspondence: the same texts through the implementation and the model with float-conversion tables from Go"},
     {"name": "native", "path": "coq/theories (Native, NativeProofs, RunNative) + harness/native.go", "serves_properties": ["C12", "C13"],
@@ -169,5 +171,14 @@ TEXT = {
                 "PARTIAL in one named respect: that a Go map/slice handed out or taken in shares no storage with the container is a fact of Go's type system plus a harness predicate "
                 "(export, snapshot, source value and container are each mutated on every case), not a theorem.",
         "note": "exports/imports are values in the model; no axioms.",
+    },
+    "C19": {
+        "engine": "generated", "design_ref": "DESIGN.md section 6, C19",
+        "technique": "translator (go/ast) + Coq obligations over the regenerated return-expression table + reflective differential check on derived types of one and two embedding levels",
+        "text": "The return expressions of every List/Object method are extracted from the source on every run; C19_*_methods_fluent: each method the property names returns the registered value on every "
+                "return path (directly or through a chain of such methods), with a small semantics proved once (C19_fluent_returns_registered); C19_*_interface_classified: every interface method returning "
+                "the interface is classified, so additions are noticed. The reflective harness calls every such method on derived values (two-level ones registered twice) and checks 14 retrieval paths of a stored derived value. "
+                "Said plainly: Coq adds bookkeeping rigour here, the weight is in the extractor and the reflective sweep.",
+        "note": "the extractor (harness/astx.go) and reflection-based argument synthesis are trusted; Init itself (registration) is only exercised dynamically; no axioms.",
     },
 }
